@@ -255,6 +255,11 @@ func checkLocalRefs(opts *FlattenOpts) error {
 			continue
 		}
 
+		if u := ref.GetURL(); u != nil && u.Fragment != "" && ref.GetPointer().IsEmpty() {
+			// the fragment is not a JSON pointer (e.g. "#definitions/x", with the leading "/" missing)
+			return ErrAtKey(key, ErrInvalidRef(ref.String()))
+		}
+
 		target, _, err := ref.GetPointer().Get(opts.Swagger())
 		if err != nil {
 			return ErrAtKey(key, ErrResolveSchema(err))
